@@ -244,7 +244,7 @@ Lemma revolve_keeps l l' (P : slice -> Prop) : sliceP P -> revolve l l' ->
   (forall x, rown l' x = rown l x) /\ (Forall P (rslots l) -> Forall P (rslots l')) /\ (leases_ok l -> leases_ok l')
   /\ (Forall P (slices l) -> Forall P (slices l')) /\ (rwp l -> rwp l').
 Proof.
-  intros HP H. induction H as [l|l l1 l2 Hs _ IH]; [repeat split; auto|].
+  intros HP H. induction H as [l|l l1 l2 Hs _ IH]; [split; [intros x; reflexivity|]; split; [auto|]; split; [auto|]; split; auto|].
   destruct (rstep_keeps l l1 P HP Hs) as [A1 [A2 [A3 [A4 A5]]]]. destruct IH as [B1 [B2 [B3 [B4 B5]]]].
   split; [intros x; rewrite B1; apply A1|]. split; [auto|]. split; [auto|]. split; auto.
 Qed.
@@ -311,6 +311,12 @@ Qed.
 (* ---------------------------------------------------------------------------------------- *)
 Definition allshm (ss : list slice) : Prop := Forall (fun x => shmf x = true) ss.
 
+(* [ext] = the slots owned by the OTHER direction of the stream pair (nothing for a single pipe), [E] = their
+   contents when the step started (ghost): an operation of this direction never touches them *)
+Section WithExt.
+Variable ext : list nat.
+Variable E : nat -> option slot.
+
 Record Inv (s : sys) (sp : spec) (idss : list (list nat)) : Prop := {
   iv_ok : store_ok (mem s);
   iv_wb : WB (mem s) (snd s);
@@ -320,12 +326,16 @@ Record Inv (s : sys) (sp : spec) (idss : list (list nat)) : Prop := {
   iv_av : content (mem s) (rcv s) = av sp;
   iv_rec : recycled (rcv s) = [];
   iv_own : forall x, cnt (frees (mem s)) x + cnt (offs (slices (snd s))) x + cnt (concat idss) x
-                     + cnt (offs (slices (rcv s))) x + cnt (offs (pinned (rcv s))) x + cnt (offs (oth s)) x <= 1;
+                     + cnt (offs (slices (rcv s))) x + cnt (offs (pinned (rcv s))) x + cnt (offs (oth s)) x + cnt ext x <= 1;
   iv_rslots : Forall (recyclable (mem s)) (slices (rcv s) ++ pinned (rcv s));
   iv_oth : Forall (fun b => shmf b = true) (oth s) /\ Forall (recyclable (mem s)) (oth s);
   iv_shm1 : idss <> [] -> allshm (slices (rcv s));
   iv_shm2 : infb s = false -> allshm (slices (rcv s)) /\ (forall d, ~ In (PFallback d) (pend s));
-  iv_leases : leases_ok (mem s) (rcv s) }.
+  iv_leases : leases_ok (mem s) (rcv s);
+  iv_ext : forall x, 0 < cnt ext x -> slot_at (mem s) x = E x;
+  iv_start : start0 (slices (rcv s));
+  iv_rwp : rwp (rcv s);
+  iv_saux : pinned (snd s) = [] /\ recycled (snd s) = [] /\ leases (snd s) = [] }.
 
 (* what the spec must see *)
 Lemma Inv_lens s sp idss : Inv s sp idss ->
@@ -349,7 +359,7 @@ Proof.
 Qed.
 
 Lemma Inv_spec_eq s sp sp' idss : pw sp' = pw sp -> infl sp' = infl sp -> av sp' = av sp -> Inv s sp idss -> Inv s sp' idss.
-Proof. intros E1 E2 E3 [I1 I2 I3 I4 I5 I6 I7 I8 I9 I10 I11 I12 I13]. constructor; auto; congruence. Qed.
+Proof. intros E1 E2 E3 [I1 I2 I3 I4 I5 I6 I7 I8 I9 I10 I11 I12 I13 I14 I15 I16 I17]. constructor; auto; congruence. Qed.
 
 Lemma wpre_of_Inv s sp idss : Inv s sp idss -> wpre (mem s) (snd s).
 Proof.
@@ -361,8 +371,8 @@ Lemma Inv_writer s sp idss bs m' l' :
   Inv s sp idss -> wrote (mem s) (snd s) bs m' l' ->
   Inv (with_mem_snd s m' l') (with_pw sp (pw sp ++ bs)) idss.
 Proof.
-  intros [I1 I2 I3 I4 I5 I6 I7 I8 I9 [I10a I10b] I11 I12 I13] [[C1 C2 C3 C4 C5 C6 C7 C8 C9] Wwb Wc Wown].
-  assert (Hother : forall x, 0 < cnt (concat idss) x + cnt (offs (slices (rcv s))) x + cnt (offs (pinned (rcv s))) x + cnt (offs (oth s)) x ->
+  intros [I1 I2 I3 I4 I5 I6 I7 I8 I9 [I10a I10b] I11 I12 I13 I14 I15 I16 I17] [[C1 C2 C3 C4 C5 C6 C7 C8 C9] Wwb Wc Wown].
+  assert (Hother : forall x, 0 < cnt (concat idss) x + cnt (offs (slices (rcv s))) x + cnt (offs (pinned (rcv s))) x + cnt (offs (oth s)) x + cnt ext x ->
                              slot_at m' x = slot_at (mem s) x).
   { intros x Hx. apply C3. apply cnt_notin. specialize (C1 x). specialize (I8 x). lia. }
   constructor; cbn [mem snd pend rcv oth infb with_mem_snd with_pw pw infl av].
@@ -380,6 +390,10 @@ Proof.
   - exact I11.
   - exact I12.
   - apply (leases_ok_frame (mem s)); [|exact I13]. intros x Hx. apply Hother. destruct Hx as [Hx|Hx]; apply cnt_In in Hx; lia.
+  - intros x Hx. rewrite Hother by lia. exact (I14 x Hx).
+  - exact I15.
+  - exact I16.
+  - destruct I17 as [A1 [A2 A3]]. repeat split; congruence.
 Qed.
 
 (* --- other owners of slots ------------------------------------------------------------------- *)
@@ -387,7 +401,7 @@ Lemma Inv_oalloc s sp idss n b m1 :
   Inv s sp idss -> allocShmBuffer (mem s) n = Some (b, m1) ->
   Inv {| mem := m1; snd := snd s; infb := infb s; pend := pend s; rcv := rcv s; oth := oth s ++ [b] |} sp idss.
 Proof.
-  intros [I1 I2 I3 I4 I5 I6 I7 I8 I9 [I10a I10b] I11 I12 I13] Hal.
+  intros [I1 I2 I3 I4 I5 I6 I7 I8 I9 [I10a I10b] I11 I12 I13 I14 I15 I16 I17] Hal.
   assert (Hnd : NoDup (frees (mem s))) by (apply NoDup_cnt; intros x; specialize (I8 x); lia).
   destruct (allocShmBuffer_spec _ _ _ _ I1 Hnd Hal) as [j P]. destruct P as [[P1 P2 P3 [t [P4 [P5 [P6 [P7 P8]]]]] P9 P10 P11 P12 P13 P14] _].
   assert (Hother : forall x, x <> off b -> slot_at m1 x = slot_at (mem s) x) by exact P9.
@@ -430,7 +444,7 @@ Lemma Inv_ofill s sp idss i b bs :
   Inv {| mem := upd_slot (mem s) (off b) (slot_write 0 (firstn (cap b) bs)); snd := snd s; infb := infb s; pend := pend s;
          rcv := rcv s; oth := oth s |} sp idss.
 Proof.
-  intros [I1 I2 I3 I4 I5 I6 I7 I8 I9 [I10a I10b] I11 I12 I13] Hn.
+  intros [I1 I2 I3 I4 I5 I6 I7 I8 I9 [I10a I10b] I11 I12 I13 I14 I15 I16 I17] Hn.
   assert (Hb : shmf b = true) by (rewrite Forall_forall in I10a; apply I10a; eapply nth_error_In; exact Hn).
   assert (Hin : In (off b) (offs (oth s))) by (apply in_offs; exists b; split; [eapply nth_error_In; exact Hn|auto]).
   set (m1 := upd_slot (mem s) (off b) (slot_write 0 (firstn (cap b) bs))).
@@ -460,7 +474,7 @@ Lemma Inv_ofree s sp idss i b :
   Inv {| mem := recycle (mem s) b; snd := snd s; infb := infb s; pend := pend s; rcv := rcv s;
          oth := firstn i (oth s) ++ skipn (S i) (oth s) |} sp idss.
 Proof.
-  intros [I1 I2 I3 I4 I5 I6 I7 I8 I9 [I10a I10b] I11 I12 I13] Hn.
+  intros [I1 I2 I3 I4 I5 I6 I7 I8 I9 [I10a I10b] I11 I12 I13 I14 I15 I16 I17] Hn.
   assert (Hbin : In b (oth s)) by (eapply nth_error_In; exact Hn).
   assert (Hb : shmf b = true) by (rewrite Forall_forall in I10a; apply I10a; exact Hbin).
   assert (Hin : In (off b) (offs (oth s))) by (apply in_offs; exists b; auto).
@@ -516,6 +530,7 @@ Qed.
 Lemma WB_clean m l : WB m (clean l).
 Proof.
   constructor; cbn [clean slices wpos len fromshm]; try constructor; try reflexivity; try (intros H; congruence).
+  intros _. cbn. split; [lia|constructor].
 Qed.
 
 Lemma content_clean m l : content m (clean l) = [].
@@ -530,7 +545,7 @@ Lemma Inv_flush_fallback s sp idss m1 :
          pend := pend s ++ [PFallback (fallback_slice (underlying m1 (snd s)))]; rcv := rcv s; oth := oth s |}
       {| pw := []; infl := infl sp ++ pw sp; av := av sp |} idss.
 Proof.
-  intros [I1 I2 I3 I4 I5 I6 I7 I8 I9 [I10a I10b] I11 I12 I13] Hlen Hfr Hfree Hcls Hok1 Hsd Hcs l2.
+  intros [I1 I2 I3 I4 I5 I6 I7 I8 I9 [I10a I10b] I11 I12 I13 I14 I15 I16 I17] Hlen Hfr Hfree Hcls Hok1 Hsd Hcs l2.
   pose proof I2 as [W1 W2 W3 W4 W5 W6 W7].
   assert (Hfrees : frees m1 = frees (mem s)) by (unfold frees; rewrite Hfree; reflexivity).
   assert (Hund : underlying m1 (snd s) = pw sp).
@@ -570,7 +585,7 @@ Qed.
 Lemma Inv_flush s sp idss : Inv s sp idss ->
   exists s' idss', flush s = Ok s' /\ Inv s' {| pw := []; infl := infl sp ++ pw sp; av := av sp |} idss'.
 Proof.
-  intros I. pose proof I as [I1 I2 I3 I4 I5 I6 I7 I8 I9 [I10a I10b] I11 I12 I13]. pose proof I2 as [W1 W2 W3 W4 W5 W6 W7].
+  intros I. pose proof I as [I1 I2 I3 I4 I5 I6 I7 I8 I9 [I10a I10b] I11 I12 I13 I14 I15 I16 I17]. pose proof I2 as [W1 W2 W3 W4 W5 W6 W7].
   unfold flush. destruct (Z.eqb_spec (len (snd s)) 0) as [Hz|Hnz].
   - exists s, idss. split; [reflexivity|].
     assert (Hpw : pw sp = []) by (apply length_zero_iff_nil; rewrite W3, I3 in Hz; lia).
@@ -632,7 +647,7 @@ Lemma Inv_read_more s sp idss n : Inv s sp idss ->
   | Some sp1 => exists s1 idss1, read_more n s = Ok s1 /\ Inv s1 sp1 idss1 /\ n <= length (av sp1)
   end.
 Proof.
-  intros I. pose proof (Inv_lens _ _ _ I) as [Hl _]. pose proof I as [I1 I2 I3 I4 I5 I6 I7 I8 I9 [I10a I10b] I11 I12 I13].
+  intros I. pose proof (Inv_lens _ _ _ I) as [Hl _]. pose proof I as [I1 I2 I3 I4 I5 I6 I7 I8 I9 [I10a I10b] I11 I12 I13 I14 I15 I16 I17].
   unfold spec_more, read_more. rewrite Hl.
   destruct (Nat.ltb_spec (length (av sp)) n) as [Hlt|Hge].
   - destruct (Z.ltb_spec (Z.of_nat (length (av sp))) (Z.of_nat n)) as [_|]; [|lia].
@@ -678,7 +693,7 @@ Lemma reader_step {A} s sp idss (f : shm -> lbuf -> outcome (A * lbuf)) (g : A -
   (allshm (slices (rcv s)) -> allshm (slices l2)) ->
   exists s', rd_op s f g = Ok (g a, s') /\ Inv s' (with_av sp c) idss.
 Proof.
-  intros [I1 I2 I3 I4 I5 I6 I7 I8 I9 [I10a I10b] I11 I12 I13] Hf Hrev Hwf Hc Hshm.
+  intros [I1 I2 I3 I4 I5 I6 I7 I8 I9 [I10a I10b] I11 I12 I13 I14 I15 I16 I17] Hf Hrev Hwf Hc Hshm.
   unfold rd_op. rewrite Hf. cbn [bind]. unfold settle. eexists. split; [reflexivity|].
   destruct (revolve_keeps (mem s) (rcv s) l2 (recyclable (mem s)) (fun s0 k H => H) Hrev) as [K1 [K2 [K3 [K4 K5]]]].
   assert (Hrs : Forall (recyclable (mem s)) (rslots l2)).
@@ -721,7 +736,7 @@ Lemma Inv_clean_pinned s sp idss :
   Inv (with_mem_rcv s m1 (set_leases l1 [])) sp idss /\ pinned l1 = [] /\ slices l1 = slices (rcv s) /\ wpos l1 = wpos (rcv s)
   /\ len l1 = len (rcv s).
 Proof.
-  intros I. pose proof I as [I1 I2 I3 I4 I5 I6 I7 I8 I9 [I10a I10b] I11 I12 I13]. unfold clean_pinned.
+  intros I. pose proof I as [I1 I2 I3 I4 I5 I6 I7 I8 I9 [I10a I10b] I11 I12 I13 I14 I15 I16 I17]. unfold clean_pinned.
   destruct (pinned (rcv s)) as [|p ps] eqn:Ep.
   - split; [|auto]. constructor; cbn [mem snd pend rcv oth infb with_mem_rcv slices pinned recycled set_leases leases]; auto.
     + apply (WF_fields (mem s) (rcv s)); [reflexivity|reflexivity|exact I5].
@@ -757,7 +772,7 @@ Lemma Inv_drop_front s sp idss x r :
   Inv s sp idss -> slices (rcv s) = x :: r -> ssize x = 0 -> leases (rcv s) = [] ->
   Inv (with_mem_rcv s (recycle (mem s) x) (set_wpos (set_slices (rcv s) r) WNil)) sp idss.
 Proof.
-  intros I Es Hz Hle. pose proof I as [I1 I2 I3 I4 I5 I6 I7 I8 I9 [I10a I10b] I11 I12 I13].
+  intros I Es Hz Hle. pose proof I as [I1 I2 I3 I4 I5 I6 I7 I8 I9 [I10a I10b] I11 I12 I13 I14 I15 I16 I17].
   pose proof I5 as [G1 G2 G3]. rewrite Es in G2, G3. inversion G3 as [|? ? Gx Gr]; subst.
   assert (Hb0 : body (mem s) x = []) by (apply length_zero_iff_nil; rewrite (body_length (mem s) x Gx); exact Hz).
   assert (Hc0 : content (mem s) (set_wpos (set_slices (rcv s) r) WNil) = content (mem s) (rcv s)).
@@ -822,7 +837,7 @@ Proof.
   cbn [len set_leases slices].
   destruct (Z.eqb_spec (len l1) 0) as [Hz|Hnz]; [|exact I'].
   destruct (slices l1) as [|x [|x2 r]] eqn:Es; try exact I'.
-  pose proof I' as [I1 I2 I3 I4 I5 I6 I7 I8 I9 [I10a I10b] I11 I12 I13].
+  pose proof I' as [I1 I2 I3 I4 I5 I6 I7 I8 I9 [I10a I10b] I11 I12 I13 I14 I15 I16 I17].
   cbn [mem snd pend rcv oth infb with_mem_rcv slices pinned recycled set_leases leases] in *.
   assert (Hav : av sp = []).
   { apply length_zero_iff_nil. destruct I5 as [G1 _ _]. cbn [len set_leases] in G1. rewrite I6 in G1. lia. }
@@ -868,7 +883,7 @@ Qed.
 Lemma Inv_close s sp idss : Inv s sp idss ->
   let '(m1, l1) := lb_recycle (mem s) (rcv s) in Inv (with_mem_rcv s m1 l1) (with_av sp []) idss.
 Proof.
-  intros I. pose proof I as [I1 I2 I3 I4 I5 I6 I7 I8 I9 [I10a I10b] I11 I12 I13]. unfold lb_recycle.
+  intros I. pose proof I as [I1 I2 I3 I4 I5 I6 I7 I8 I9 [I10a I10b] I11 I12 I13 I14 I15 I16 I17]. unfold lb_recycle.
   apply Forall_app in I9. destruct I9 as [I9a I9b].
   assert (Hnd : NoDup (offs (slices (rcv s)))) by (apply NoDup_cnt; intros x; specialize (I8 x); lia).
   assert (Hdis : forall x, In x (offs (slices (rcv s))) -> ~ In x (frees (mem s))).
@@ -1092,6 +1107,8 @@ Proof.
     destruct (Inv_lens _ _ _ H3) as [L1 L2]. split; [exact L1|]. split; [exact L2|]. eapply IH; exact H3.
   - split; [exact H|]. eapply IH; exact I.
 Qed.
+
+End WithExt.
 
 (* the guard createFreeBufferList enforces: no size class of capacity 0 *)
 Definition cfg_ok (cfg : list (nat * nat)) : Prop := Forall (fun p => 0 < fst p) cfg.
